@@ -480,6 +480,131 @@ def check_decoder_mutations_full(prop, tier, repo, verif):
     return res
 
 
+def check_int_grid(prop, tier, repo, verif):
+    t0 = time.time()
+    nrand = 200000 if tier == 'thorough' else 20000
+    res = {'unit': 'bounded:int_grid_full', 'engine': 'bounded run of the real assembler + processor on the build-time stdlib (tools/intgrid, adapted from the third C16 sub-agent\'s demo; release build)', 'status': 'ok',
+           'failures': [], 'undecided': [], 'bounded': True,
+           'bound': 'every export of std::math::u64 (29) and std::math::u256 (8), each with an independent u128 / two-u128 reference (self-checked against a schoolbook implementation): u64 on all 9^4 limb pairs from {0, 1, 2, 2^16-1, 2^16, 2^31-1, 2^31, 2^32-2, 2^32-1}, the 9^2 grid x shift / rotation amounts 0..64, zero divisors; u256: one limb position x 9 values x 9 backgrounds, every pair of limb positions x 81 x 9, carry / borrow chains of every start and length, block products, {0,1,2^32-1}^8 for iszero; %d seeded random cases per procedure in 5 modes (random, equal limbs, boundary mix, {0,1,2^32-1} limbs, equal except one limb); 0..12 random elements below the operands; the COMPLETE final stack is compared' % nrand}
+    binp, err = build_tool(repo, verif, 'intgrid', release=True)
+    if binp is None:
+        res['status'] = 'undecided'
+        res['undecided'].append('intgrid does not build against the current tree: ' + err)
+        return res
+    p = subprocess.run([binp, '--threads', '10', '--random', str(nrand)], stdout=subprocess.PIPE, stderr=subprocess.PIPE, text=True)
+    m = re.search(r'SUMMARY cases=(\d+) procedures_failing=(\d+) baseline_deviations=(\d+)', p.stdout)
+    if not m:
+        res['status'] = 'undecided'
+        res['undecided'].append('intgrid gave no summary (panic?): ' + (p.stdout + p.stderr)[-500:])
+        return res
+    for ln in p.stdout.split('\n'):
+        mm = re.match(r'FAILCASE (\S+) :: (.*?) :: (.*)', ln)
+        if not mm:
+            continue
+        proc, count, detail = mm.groups()
+        res['failures'].append({'obligation': '%s/bounded/int_grid_full#%s' % (prop, proc), 'message': '%s deviates from its integer function: %s' % (proc, count),
+                                'rendered': ln[:1800], 'origins': ['stdlib/asm/math/u64.masm', 'stdlib/asm/math/u256.masm'],
+                                'failing_input': {'procedure': proc, 'first_mismatch': detail[:1200], 'cmd': '.cache/target/release/intgrid --only %s' % proc}})
+    if res['failures']:
+        res['status'] = 'fail'
+    res['wall_s'] = round(time.time() - t0, 1)
+    res['checker_cmd'] = 'tools/intgrid --random %d (built against the current tree): %s executions; %s excluded cases are the documented-behaviour notes (rotl / rotr by 64 do not fail - outside the quantifier 0..63; u256::mul_unsafe leaves extra zeros at the bottom of a stack at minimum depth)' % (nrand, m.group(1), m.group(3))
+    return res
+
+
+def check_statement_binding_full(prop, tier, repo, verif):
+    t0 = time.time()
+    step = 1 if tier == 'thorough' else 6
+    res = {'unit': 'bounded:statement_binding_full', 'engine': 'bounded run of the real prover and verifier (tools/bindfull, adapted from the third C02 sub-agent\'s demo; release build)', 'status': 'ok',
+           'failures': [], 'undecided': [], 'bounded': True,
+           'bound': '%d proved programs (0 / 1 / 3 kernel procedures x 0, 1, 5, 16, 17, 24 stack inputs x final depth 16, 17, 20, 33, the four presets in rotation%s); every honest statement verifies; verify() must return Err (a panic is a failure, the known winter-air header panics F15 excepted and counted) for every single-field alteration: each stack input (+1, 0, swapped, appended / removed elements), each output position and overflow element, each overflow address, the overflow list lengthened / shortened, each program-hash element, each kernel procedure hash (altered, removed, duplicated, added, kernel swapped / emptied), the hash-function tag set to each of the other 255 values, option bytes replaced by weaker ones or by another preset\'s, 50 truncations, 3 extensions, 2000 bit flips incl. every byte of the first 200; 66 honestly generated proofs from 3 hash functions x 11 parameter sets x 2 programs: exactly the 8 documented combinations verify' % (72 if step == 1 else 12, '' if step == 1 else '; every 6th of the 72-program family, all 72 in the thorough tier')}
+    binp, err = build_tool(repo, verif, 'bindfull', release=True)
+    if binp is None:
+        res['status'] = 'undecided'
+        res['undecided'].append('bindfull does not build against the current tree: ' + err)
+        return res
+    env = dict(os.environ)
+    env['DEMO_THREADS'] = '10'
+    env['DEMO_SPEC_STEP'] = str(step)
+    try:
+        p = subprocess.run([binp], stdout=subprocess.PIPE, stderr=subprocess.PIPE, text=True, env=env, timeout=3600)
+    except subprocess.TimeoutExpired:
+        res['status'] = 'undecided'
+        res['undecided'].append('bindfull timed out')
+        return res
+    m = re.search(r'SUMMARY programs=(\d+) checked=(\d+) rejected=(\d+) failures=(\d+) known_header_panics=(\d+)', p.stdout)
+    if not m:
+        res['status'] = 'undecided'
+        res['undecided'].append('bindfull gave no summary (panic?): ' + (p.stdout + p.stderr)[-500:])
+        return res
+    seen = set()
+    for ln in p.stdout.split('\n'):
+        mm = re.match(r'FAILCASE FAIL \[(.*?)\] (.*?)(?:: (.*))?$', ln)
+        if not mm:
+            continue
+        case, category, detail = mm.group(1), mm.group(2), mm.group(3) or ''
+        key = re.sub(r'[^A-Za-z0-9]+', '-', category).strip('-')[:70]
+        if key in seen:
+            continue
+        seen.add(key)
+        res['failures'].append({'obligation': '%s/bounded/statement_binding_full#%s' % (prop, key), 'message': 'an altered statement / proof was accepted or verification panicked: %s: %s' % (category, detail[:300]),
+                                'rendered': ln[:1800], 'origins': ['verifier/src/lib.rs', 'air/src/lib.rs', 'air/src/proof.rs', 'air/src/options.rs', 'air/src/constraints/stack/mod.rs', 'core/src/stack', 'core/src/program/info.rs'],
+                                'failing_input': {'program': case[:300], 'alteration': (category + ': ' + detail)[:900], 'cmd': 'DEMO_SPEC_STEP=%d .cache/target/release/bindfull' % step}})
+    if int(m.group(4)) and not res['failures']:
+        res['failures'].append({'obligation': '%s/bounded/statement_binding_full#failures' % prop, 'message': '%s failures' % m.group(4), 'rendered': p.stdout[-800:], 'origins': []})
+    if res['failures']:
+        res['status'] = 'fail'
+    res['wall_s'] = round(time.time() - t0, 1)
+    res['checker_cmd'] = 'tools/bindfull (built against the current tree): %s programs proved, %s alterations checked, %s rejected, %s known header panics (F15) excluded' % (m.group(1), m.group(2), m.group(3), m.group(5))
+    return res
+
+
+def check_asm_full(prop, tier, repo, verif):
+    t0 = time.time()
+    ngraphs = 24 if tier == 'thorough' else 6
+    res = {'unit': 'bounded:asm_reference_full', 'engine': 'bounded run of the real assembler + processor (tools/asmfull, adapted from the second C11 sub-agent\'s demo; release build with debug assertions)', 'status': 'ok',
+           'failures': [], 'undecided': [], 'bounded': True,
+           'bound': '(1) 521 parameter-boundary sources: for every instruction with a parameter the last valid and first invalid value, 0 and the type maximum (ranges from docs/src/user_docs/assembly); (2) 1635 forbidden-construct x context sources (undefined procedure, call / syscall / caller where forbidden, export in an executable, zero divisor immediates; in program bodies, local procs, library exports, kernel exports, kernel-internal procs; directly / through exec / through a re-export); (3) %d generated library graphs (2-5 modules, imports, re-exports, same body under different names, same name in different modules, nested exec / call / procref chains) x programs x every history of up to 3 earlier compilations x every library order: identical result (same MAST root / same success or failure) and every assembled program executes without a missing procedure; (4) two directed history probes (X1 failing module with a re-export, X2 equal MAST roots with different call sets)' % ngraphs}
+    binp, err = build_tool(repo, verif, 'asmfull', release=True)
+    if binp is None:
+        res['status'] = 'undecided'
+        res['undecided'].append('asmfull does not build against the current tree: ' + err)
+        return res
+    try:
+        p = subprocess.run([binp, str(ngraphs)], stdout=subprocess.PIPE, stderr=subprocess.PIPE, text=True, timeout=3600)
+    except subprocess.TimeoutExpired:
+        res['status'] = 'undecided'
+        res['undecided'].append('asmfull timed out')
+        return res
+    m = re.search(r'SUMMARY graphs=(\d+) parts_ok=(\d+)', p.stdout)
+    if not m:
+        res['status'] = 'undecided'
+        res['undecided'].append('asmfull gave no summary (panic?): ' + (p.stdout + p.stderr)[-500:])
+        return res
+    seen = set()
+    for ln in p.stdout.split('\n'):
+        mm = re.match(r'FAILCASE (\S+) :: (.*)', ln)
+        if not mm:
+            continue
+        part, detail = mm.groups()
+        head = re.match(r'(\[[^\]]*\]\s*)?(.{0,60})', detail)
+        key = '%s:%s' % (part, re.sub(r'[^A-Za-z0-9]+', '-', (head.group(1) or '') + (head.group(2) or '')).strip('-')[:70])
+        if key in seen or len(seen) > 30:
+            continue
+        seen.add(key)
+        res['failures'].append({'obligation': '%s/bounded/asm_reference_full#%s' % (prop, key), 'message': 'assembler deviates (%s): %s' % (part, detail[:400]),
+                                'rendered': ln[:1800], 'origins': ['assembly/src/assembler', 'assembly/src/procedures/mod.rs', 'assembly/src/library'],
+                                'failing_input': {'part': part, 'case': detail[:1400], 'cmd': '.cache/target/release/asmfull %d' % ngraphs}})
+    if m.group(2) != '111' and not [f for f in res['failures'] if not re.search(r'#x[12]:', f['obligation'])]:
+        res['failures'].append({'obligation': '%s/bounded/asm_reference_full#failures' % prop, 'message': 'a part failed: parts_ok=%s' % m.group(2), 'rendered': p.stdout[-800:], 'origins': []})
+    if res['failures']:
+        res['status'] = 'fail'
+    res['wall_s'] = round(time.time() - t0, 1)
+    cm = re.search(r'\[part3\] (\d+) library graphs, (\d+) \(graph, library order\) combinations, (\d+) compilations', p.stdout)
+    res['checker_cmd'] = 'tools/asmfull %d (built against the current tree): %s' % (ngraphs, cm.group(0) if cm else '')
+    return res
+
+
 def check_hash_invariance(prop, tier, repo, verif):
     t0 = time.time()
     res = {'unit': 'bounded:hash_invariance', 'engine': 'bounded run of the real assembler and processor (tools/hashprobe)', 'status': 'ok',
